@@ -283,6 +283,7 @@ def run_property(pid, tier, seed, root):
                                     ff.get('origin'), ff.get('text', ''), [('cex', kr.cex)]))
         if kr.trusted:
             trusted.extend(kr.trusted)
+        rewrites.extend(getattr(kr, 'rewrites', []))
         if kr.cmd:
             cmds.append(kr.cmd)
         for s in kr.samples[:2]:
